@@ -7,8 +7,10 @@ Every mutant is a small source edit a maintainer could commit (off-by-one, dropp
 wrong condition, missing lock, forgotten reset, wrong list end).  For every mutant the listed checks are run as
 `./check <ID> --tier quick` against a scratch copy (VERIF_REPO) with a private evidence directory (VERIF_EVID).
 
-usage: mt_mutants.py [--dry] [--jobs N] [--out FILE] [name-or-property ...]
+usage: mt_mutants.py [--dry | --suite] [--jobs N] [--out FILE] [name-or-property ...]
   --dry     only apply the edits and compile the edited file (pattern / build check), run no check
+  --suite   instead of the checks, build the repository's own test programs (TESTS of /repo/test/Makefile.am) against
+            the edited tree and run them: does the pinned suite notice the mutant?
   --jobs N  mutants in flight (default 3, never more: the machine is shared)
   names     mutant names, or property ids (all mutants that list the property), default: all
 Scratch copies live under /tmp/mutsurvey/<name>/ and are removed when a mutant is done; /repo is never touched.
@@ -462,13 +464,71 @@ def run_check(d, name, pr, timeout=2400):
             "tail": [l[:300] for l in out.splitlines()[-4:]]}
 
 
+LIB_SRCS = ["iv_avl", "iv_event", "iv_fatal", "iv_task", "iv_timer", "iv_tls", "iv_work", "iv_event_raw_posix", "iv_fd",
+            "iv_fd_poll", "iv_fd_pump", "iv_main_posix", "iv_popen", "iv_signal", "iv_thread_posix", "iv_tid_posix",
+            "iv_time_posix", "iv_wait", "iv_fd_epoll", "iv_inotify"]
+SUITE = ["avl", "event_unregister_bug", "iv_event_raw_test", "timer", "timer_fairness", "timer_fairness_bug", "timer_order",
+         "timer_past", "timer_zero", "iv_signal_test"]          # TESTS of /repo/test/Makefile.am minus struct_sizes
+_suite_base_lock = threading.Lock()
+
+
+def suite_flags(d):
+    inc = os.path.join(d, "inc")
+    os.makedirs(inc, exist_ok=True)
+    txt = open(os.path.join(d, "src", "include", "iv.h.in")).read().replace("@ac_cv_timespec_hdr@", "sys/time.h")
+    open(os.path.join(inc, "iv.h"), "w").write(txt)
+    shutil.copy(os.path.join(d, "config.h"), inc)
+    return ["-D_GNU_SOURCE", "-DHAVE_CONFIG_H", "-I" + inc, "-I" + d + "/src/include", "-I" + d + "/src", "-O2", "-g", "-pthread"]
+
+
+def run_suite(d, name, f):
+    """the repository's own `make check` programs, built (plain gcc -O2, as the autotools build does) against the
+    edited tree: unedited objects are compiled once into /tmp/mutsurvey/_suite_base and reused"""
+    base = os.path.join(SCRATCH, "_suite_base")
+    with _suite_base_lock:
+        if not os.path.exists(os.path.join(base, "done")):
+            bd, _ = make_scratch("_suite_base", None, None, None)
+            fl = suite_flags(bd)
+            for s in LIB_SRCS:
+                subprocess.run(["gcc"] + fl + ["-c", bd + "/src/%s.c" % s, "-o", bd + "/%s.o" % s], check=True)
+            open(os.path.join(base, "done"), "w").write("ok\n")
+    fl = suite_flags(d)
+    objs = [os.path.join(base, s + ".o") for s in LIB_SRCS]
+    hdr_edit = f is not None and not f.endswith(".c")
+    for s in LIB_SRCS:
+        if f is not None and (hdr_edit or f == s + ".c"):
+            o = os.path.join(d, s + ".o")
+            p = subprocess.run(["gcc"] + fl + ["-c", d + "/src/%s.c" % s, "-o", o], stdout=subprocess.PIPE, stderr=subprocess.STDOUT, text=True)
+            if p.returncode != 0:
+                return {"mutant": name, "property": "suite", "class": "BUILD-FAIL", "tail": p.stdout.splitlines()[-5:]}
+            objs[LIB_SRCS.index(s)] = o
+    failed = []
+    t0 = time.time()
+    for t in SUITE:
+        exe = os.path.join(d, "t_" + t)
+        p = subprocess.run(["gcc"] + fl + ["/repo/test/%s.c" % t] + objs + ["-o", exe], stdout=subprocess.PIPE, stderr=subprocess.STDOUT, text=True)
+        if p.returncode != 0:
+            failed.append(t + "(link)")
+            continue
+        try:
+            r = subprocess.run([exe], stdout=subprocess.DEVNULL, stderr=subprocess.DEVNULL, timeout=120)
+            if r.returncode != 0:
+                failed.append("%s(rc=%d)" % (t, r.returncode))
+        except subprocess.TimeoutExpired:
+            failed.append(t + "(timeout)")
+    return {"mutant": name, "property": "suite", "class": "SUITE-FAIL " + " ".join(failed) if failed else "suite passes",
+            "wall_s": round(time.time() - t0, 1)}
+
+
 def run(m, dry, outf):
     name, f, old, new, props, clause = m
     res = []
-    d, err = make_scratch(name, f, old, new)
+    d, err = make_scratch(("suite_" + name) if dry == "suite" else name, f, old, new)
     try:
         if err:
             res.append({"mutant": name, "property": ",".join(props), "class": err})
+        elif dry == "suite":
+            res.append(run_suite(d, name, f))
         else:
             ok, log = (True, "") if f is None or not f.endswith(".c") else compile_check(d, f)
             if not ok:
@@ -502,6 +562,8 @@ def run(m, dry, outf):
 def main():
     args = sys.argv[1:]
     dry = "--dry" in args
+    if "--suite" in args:
+        dry = "suite"
     jobs, out = 3, None
     sel = []
     i = 0
@@ -513,7 +575,7 @@ def main():
         elif a == "--out":
             out = args[i + 1]
             i += 1
-        elif a != "--dry":
+        elif a not in ("--dry", "--suite"):
             sel.append(a)
         i += 1
     todo = [m for m in M if not sel or m[0] in sel or any(p in sel for p in m[4])]
@@ -533,6 +595,8 @@ def main():
         list(ex.map(lambda m: run(m, dry, outf), order))
     if outf:
         outf.close()
+    if dry == "suite":
+        shutil.rmtree(os.path.join(SCRATCH, "_suite_base"), ignore_errors=True)
     try:
         os.rmdir(SCRATCH)
     except OSError:
